@@ -1,12 +1,14 @@
+pub mod c04;
 pub mod c05;
 
 use crate::runner::Scenario;
 
 pub fn by_id(id: &str) -> Option<Box<dyn Scenario>> {
     match id {
+        "C04" => Some(Box::new(c04::C04)),
         "C05" => Some(Box::new(c05::C05)),
         _ => None,
     }
 }
 
-pub const ALL: &[&str] = &["C05"];
+pub const ALL: &[&str] = &["C04", "C05"];
